@@ -13,6 +13,12 @@ class Inconclusive(Exception):
     pass
 
 
+def _b2i(t):
+    if T.sort_of(t) == T.BOOL:
+        return T.ite(t, 1, 0)
+    return t
+
+
 class Session:
     def __init__(self, crates, timeout_s=60):
         self.prog = Program()
@@ -26,6 +32,9 @@ class Session:
         self.current = None
         self.aux_queries = 0
         self.aux_time = 0.0
+        self._natives = {}
+        self.tier = "quick"
+        self.native_driver = None
 
     def ctx(self, unwind=8):
         c = Ctx(self.prog)
@@ -70,11 +79,44 @@ class Session:
         self.results.append(r)
         return r
 
+    def native(self, ctx, key, args, outs, panic=None, pre=None):
+        """register the native counterpart of an encoded call: vnative `key` applied to `args` (Int terms) must give
+        `outs` (Int/Bool terms; Bool compared as 0/1) or panic exactly when `panic` holds. Used for replay of
+        counterexamples and for translator validation."""
+        self._natives.setdefault(id(ctx), []).append({"key": key, "args": list(args), "outs": [_b2i(o) for o in outs], "panic": panic, "pre": pre})
+
     def prove(self, ctx, ob, name, assumptions, goal, timeout_s=None, extra=None):
         """assert side /\ assumptions /\ not goal ; expect unsat"""
         asserts = list(ctx.side) + list(assumptions) + [T.not_(goal)]
         qr = smt.check(name, ctx.decls, ctx.uf_decls, asserts, timeout_s or self.timeout_s)
-        return self._record(ob, name, "prove", "unsat", qr, extra)
+        ex = {"natives": list(self._natives.get(id(ctx), [])), "goal_term": goal, "assumptions_terms": list(assumptions),
+              "side_terms": list(ctx.side)}
+        if extra:
+            ex.update(extra)
+        return self._record(ob, name, "prove", "unsat", qr, ex)
+
+    def validate(self, ctx, inputs):
+        """translator validation: for each concrete assignment of the context's symbols, the encoding evaluated
+        concretely must agree with the native function for every registered native call. Returns (cases, mismatches)."""
+        from vlib.native import ev
+        cases, mism = 0, []
+        regs = self._natives.get(id(ctx), [])
+        batch = []
+        for model in inputs:
+            for reg in regs:
+                if reg.get("pre") is not None and not ev(reg["pre"], model):
+                    continue
+                args = [int(ev(a, model)) for a in reg["args"]]
+                pan = bool(ev(reg["panic"], model)) if reg.get("panic") is not None else False
+                enc = "panic" if pan else [int(ev(o, model)) for o in reg["outs"]]
+                batch.append((reg["key"], args, enc))
+        if batch:
+            got = self.native_driver.batch([(k, a) for k, a, _ in batch])
+            for (k, a, enc), g in zip(batch, got):
+                cases += 1
+                if g != enc:
+                    mism.append({"key": k, "args": a, "native": g, "encoding": enc})
+        return cases, mism
 
     def witness(self, ctx, ob, name, assumptions, cond=True, timeout_s=None):
         """vacuity/reachability witness: side /\ assumptions /\ cond must be satisfiable"""
@@ -114,6 +156,8 @@ def as_int(v):
         return as_int(v.fields[0])
     if isinstance(v, EnumV) and not v.payloads:
         return v.disc
+    if isinstance(v, OpaqueV) and type_head(v.ty) == "Capacity":
+        return Ctx.LIVE.int(v.name + ".0", "u64").t
     raise Inconclusive(f"not an int: {v}")
 
 
